@@ -7,7 +7,7 @@
 From Coq Require Import Sorting.Sorted.
 From DicomV Require Import Base.Endian Model.Vr Model.Header Model.Prim Model.Dataset Model.Writer Model.Reader
   Spec.Ps35 Proofs.HeaderP Proofs.PrimP Proofs.WriterP Proofs.ValidP Proofs.FlatP Proofs.ValueP Proofs.ReaderP
-  Proofs.RoundTripP Proofs.TotalP.
+  Proofs.RoundTripP Proofs.TotalP Proofs.NestedP.
 Open Scope N_scope.
 
 (** Full statement (kept visible): every well-formed data set, of any nesting,
@@ -80,6 +80,15 @@ Theorem C01_write_flat : forall c nochange inv es,
   Forall plain es -> write_dataset c nochange inv es = enc_flat c es.
 Proof. exact write_dataset_flat. Qed.
 
+(** Nested data sets of any depth, default strategy: the writer half of the
+    round trip (mutual structural induction over elements, element lists and
+    item lists): the bytes are the direct recursive description [enc_trees]
+    (undefined-length sequences and items closed by their delimiters, pixel
+    fragments with explicit lengths). The reader half for nesting is not proved. *)
+Theorem C01_write_nested_partial : forall c es,
+  Forall regular es -> write_dataset c false false es = enc_trees (elems_size es) c es.
+Proof. exact write_dataset_nested. Qed.
+
 (** Deflated Explicit VR Little Endian: the data set stream is passed through
     the adapter; with the external round-trip property of the compressor as a
     named hypothesis, the round trip reduces to the Explicit VR LE one. *)
@@ -127,4 +136,5 @@ Print Assumptions C01_value_words.
 Print Assumptions C01_value_text.
 Print Assumptions C01_value_words_raw.
 Print Assumptions C01_write_flat.
+Print Assumptions C01_write_nested_partial.
 Print Assumptions C01_roundtrip_flat_deflated.
